@@ -36,13 +36,12 @@ Section S.
   Lemma dlog_opt_nonnone a v : v <> PNone -> dlog (SOpt a) v = dlog a v.
   Proof. destruct v; simpl; intro H; try reflexivity. exfalso; apply H; reflexivity. Qed.
 
-  (* serialize is called exactly on the non-None occurrences held by input model fields,
-     unless a non-null list has nullable items (ok_ty = F21 guard) *)
+  (* serialize is called exactly on the non-None occurrences held by input model fields *)
   Lemma serialize_once_fields : forall t nl nn v log,
-    ok_ty nl t = true -> (nl = false -> nn = true \/ is_nonnull t = true) ->
+    (nl = false -> nn = true) ->
     occ_ser S t nn v = Some log -> dlog (input_sann S t nl) v = Some log.
   Proof.
-    induction t as [n|t' IH|t' IH]; intros nl nn v log Hok Hfl H.
+    induction t as [n|t' IH|t' IH]; intros nl nn v log Hfl H.
     - simpl in *.
       assert (Hleaf : forall v', v' <> PNone -> v' <> PUnset ->
                 dlog (wrap_opt nl (input_leaf S n)) v' =
@@ -50,25 +49,22 @@ Section S.
       { intros v' H1 H2. destruct nl; unfold wrap_opt; [rewrite dlog_opt_nonnone by exact H1|];
           unfold input_leaf; destruct (cfg_ser (scalar_cfg_of S n)); reflexivity. }
       destruct v; try (inversion H; subst; apply Hleaf; discriminate).
-      + destruct nn; [discriminate|]. inversion H; subst.
-        destruct nl; [reflexivity|]. destruct (Hfl eq_refl); discriminate.
+      destruct nn; [discriminate|]. inversion H; subst.
+      destruct nl; [reflexivity|]. specialize (Hfl eq_refl). discriminate.
     - simpl in H. destruct v; try discriminate.
       + destruct nn; [discriminate|]. inversion H; subst.
-        destruct nl; [reflexivity|]. destruct (Hfl eq_refl); discriminate.
-      + simpl in Hok. apply andb_true_iff in Hok as [Hnn Hok'].
-        assert (Hl : dlog (SList (input_sann S t' nl)) (PList l) = Some log).
+        destruct nl; [reflexivity|]. specialize (Hfl eq_refl). discriminate.
+      + assert (Hl : dlog (SList (input_sann S t' true)) (PList l) = Some log).
         { simpl. revert log H. induction l as [|e r IHl]; intros log H; [exact H|].
           destruct (occ_ser S t' false e) as [a1|] eqn:E1; [|discriminate].
-          rewrite (IH nl false e a1 Hok').
-          - match type of H with
-            | match ?g with _ => _ end = _ => destruct g as [a2|] eqn:E2; [|discriminate]
-            end.
-            rewrite (IHl a2 eq_refl). exact H.
-          - intro E; subst nl. right. simpl in Hnn. exact Hnn.
-          - exact E1. }
+          rewrite (IH true false e a1); [|discriminate|exact E1].
+          match type of H with
+          | match ?g with _ => _ end = _ => destruct g as [a2|] eqn:E2; [|discriminate]
+          end.
+          rewrite (IHl a2 eq_refl). exact H. }
         simpl input_sann. destruct nl; unfold wrap_opt; [|exact Hl].
         rewrite dlog_opt_nonnone; [exact Hl|discriminate].
-    - simpl in *. apply (IH false true); [exact Hok | intros _; left; reflexivity | exact H].
+    - simpl in *. apply (IH false true); [intros _; reflexivity | exact H].
   Qed.
 
   Lemma var_ser_cfg t : var_ser S t = cfg_ser (scalar_cfg_of S (named_of t)).
